@@ -31,7 +31,8 @@ const (
 	EvProcTear    = "proc.teardown"
 	EvDBSet       = "db.set"    // direct (non-transactional) set applied; Snap = snapshot number
 	EvDBCommit    = "db.commit" // OK=true: commit applied, Snap = snapshot number (appended BEFORE Commit returns)
-	EvStatus      = "status"    // pipeline status write through the lifecycle's PipelineService
+	EvStatus      = "status"    // pipeline status write through the lifecycle's PipelineService (appended after the write)
+	EvStatusBegin = "status.begin" // appended BEFORE the write: from here on the new status may be visible
 	EvCtlCall     = "ctl.call"
 	EvCtlRet      = "ctl.ret"
 	EvNote        = "note"
